@@ -4,10 +4,7 @@ func init() {
 	checks["C06"] = &CheckDef{
 		Tasks: func(tier string, seed int64) []Task {
 			var ts []Task
-			nq := int64(3)
-			if tier == "thorough" {
-				nq = 4
-			}
+			nq := int64(3) // four free bytes were tried: hours per task, so thorough widens the versions/hints at three bytes instead
 			for n := int64(0); n <= nq; n++ {
 				for _, ver := range []int64{1, 10, 27} {
 					for hint := int64(0); hint < 4; hint++ {
@@ -18,16 +15,13 @@ func init() {
 					}
 				}
 			}
-			nd := int64(2)
-			if tier == "thorough" {
-				nd = 3
-			}
+			nd := int64(2) // three free codewords: millions of paths, outside what finishes
 			for n := int64(0); n <= nd; n++ {
 				ts = append(ts, Task{Pkg: "datamatrix/decoder", Func: "VerifC06DMStream", Args: ints(n), Note: "free codewords"})
 			}
 			na := int64(15)
 			if tier == "thorough" {
-				na = 19
+				na = 17
 			}
 			for n := int64(0); n <= na; n++ {
 				ts = append(ts, Task{Pkg: "aztec/decoder", Func: "VerifC06AztecBits", Args: ints(n), Note: "free corrected bits"})
@@ -76,9 +70,9 @@ func init() {
 			return map[string]interface{}{
 				"qr_version":    "matrices of versions 7, 8, 20, 40 with one 18-bit version block free and the rest white",
 				"truncated_1d":  "for ten writer/reader pairs: the rendered template (one free character for digit symbologies, Code 39, Codabar in part) cut after every module, with the row end at every 32-bit alignment for the last 12 cuts: DecodeRow returns result xor error",
-				"qr_stream":     "every byte string of length <= 3 (quick; 4 thorough) x versions {1,10,27} x 4 hint settings: result xor FormatException, no panic",
-				"dm_stream":     "every codeword string of length <= 2 (3 thorough)",
-				"aztec_bits":    "every bit sequence of length <= 15 (19 thorough) through HighLevelDecode",
+				"qr_stream":     "every byte string of length <= 3 (quick: length 3 only at version 1 without hint; thorough: all) x versions {1,10,27} x 4 hint settings: result xor FormatException, no panic",
+				"dm_stream":     "every codeword string of length <= 2",
+				"aztec_bits":    "every bit sequence of length <= 15 (17 thorough) through HighLevelDecode",
 				"extended_1d":   "code39DecodeExtended / code93DecodeExtended on every byte string of length <= 4 (5 thorough)",
 				"matrix_decode": "qrcode and datamatrix Decoder.Decode on blank and full matrices of every size 1..48 x 1..48 (same-range blocks) plus non-square spot sizes",
 			}
@@ -89,7 +83,7 @@ func init() {
 			"1-D DecodeRow on free rows (no harness yet); matrices with free content (the RS decoder's Euclid loop explodes)",
 			"panics inside golang.org/x/text (third party; modelled or havoc'd)",
 		},
-		Stubs: []string{"x/text codecs: UTF-8 / ISO-8859-1 / US-ASCII models; other codecs on more than two symbolic bytes are havoc (empty output, success or failure both explored)"},
+		Stubs:       []string{"x/text codecs: UTF-8 / ISO-8859-1 / US-ASCII models; other codecs on more than two symbolic bytes are havoc (empty output, success or failure both explored)"},
 		Assumptions: commonAssumptions,
 	}
 }
